@@ -266,6 +266,9 @@ def build_sig_part(rng):
         if i == 0 and r < 0.35 and bar > 1:
             length = rng.randint(1, bar - 1)
             meta["pickup"] = True
+        elif i == 0 and r < 0.45:
+            length = bar + rng.randint(1, bar)          # a first measure longer than a bar (no pickup: it starts where it starts)
+            meta["irregular"] += 1
         elif r < 0.15:
             length = rng.randint(1, 2 * bar)
             meta["irregular"] += length != bar
